@@ -704,6 +704,195 @@ def oracle(ctx, budget):
     return exc
 
 
+# ------------------------------------------------------------------------------------------------
+# data dtypes: integer (signed / unsigned, 8..64 bit) and float32 inputs.  The wrappers return the baseline in the
+# dtype of the input data, so the statements are judged on the RETURNED arrays converted exactly (int / Fraction).
+
+DTYPES = ['uint8', 'int8', 'uint16', 'int16', 'uint32', 'int32', 'uint64', 'int64', 'float32']
+DT_KINDS = ['mid', 'edge', 'peaks', 'near-min', 'near-max']
+
+
+def dtype_class(dt):
+    dt = np.dtype(dt)
+    return 'unsigned' if dt.kind == 'u' else 'signed' if dt.kind == 'i' else dt.name
+
+
+def dtype_span(dt):
+    """Usable integer range: the dtype's range, cut to +-2**53 so that every value is exact in binary64."""
+    ii = np.iinfo(dt)
+    return max(int(ii.min), -2 ** 53), min(int(ii.max), 2 ** 53)
+
+
+def gen_dtype_data(rng, n, dt, kind):
+    """Python numbers (ints for integer dtypes) representable in `dt`, and a representable shift c with y + c in range."""
+    dt = np.dtype(dt)
+    if dt.kind == 'f':
+        t = np.arange(n)
+        v = rng.integers(-40, 61, n) + rng.normal(0, 0.3, n)
+        if kind == 'peaks':
+            v = 5 + 40 * np.exp(-0.5 * ((t - n / 2) / (n / 15 + 1)) ** 2) + rng.normal(0, 0.3, n)
+        v = v.astype(dt)
+        c = float(np.asarray(rng.choice([1.0, 0.5, 60.0, -7.25])).astype(dt))
+        return [float(q) for q in v], c
+    lo, hi = dtype_span(dt)
+    cmax = 60
+    if kind == 'near-min':
+        base = lo
+    elif kind == 'near-max':
+        base = hi - 100 - cmax
+    else:
+        base = 0 if lo == 0 else -40
+    v = [base + int(q) for q in rng.integers(0, 101, n)]
+    if kind == 'edge':
+        for i in list(range(max(1, n // 10))) + list(range(n - max(1, n // 12), n)):
+            v[i] = base
+    elif kind == 'peaks':
+        t = np.arange(n)
+        v = [base + int(q) for q in np.round(5 + 40 * np.exp(-0.5 * ((t - n / 2) / (n / 15 + 1)) ** 2) + rng.integers(0, 3, n))]
+    c = int(rng.choice([1, 7, cmax]))
+    if kind == 'mid' and lo < 0 and rng.random() < 0.5:
+        c = -c
+    return v, c
+
+
+def exact_values(arr):
+    arr = np.asarray(arr)
+    if arr.dtype.kind in 'iu':
+        return [int(q) for q in arr.ravel()]
+    return [Fraction(float(q)) for q in arr.ravel()]
+
+
+def oracle_dtype_one(ctx, case):
+    """C14 on data of an integer / float32 dtype, judged on the returned arrays converted exactly."""
+    before = len(ctx.violations) + len(ctx.known_hit)
+    dt = np.dtype(case['dtype'])
+    y = np.array(case['y'], dtype=dt)
+    meth, kw, c = case['method'], dict(case['kwargs']), case['shift']
+    cls = dtype_class(dt)
+    dim = '2d' if y.ndim == 2 else '1d'
+    f = fitter2() if y.ndim == 2 else fitter()
+    base = np.asarray(quiet(getattr(f, meth), y, **kw)[0])
+    if base.shape != y.shape:
+        ctx.fail(f'le:{meth}:{dim}:{cls}-data:shape', f'{meth} ({dim}, {dt.name} data): baseline shape differs from the data', case)
+        return 1
+    by, yy = exact_values(base), exact_values(y)
+    excess = [(p - q, i) for i, (p, q) in enumerate(zip(by, yy)) if p > q]
+    if excess:
+        worst, where = max(excess)
+        if dt.kind in 'iu' and worst >= 2 ** (8 * dt.itemsize - 1):
+            key, how = f'{meth}:{cls}-data:wraps-above', ('the float baseline is outside the range of the data dtype there and wraps '
+                                                           'when the result is cast back to the dtype of the input data')
+        elif dt.kind in 'iu' and worst == 1:
+            key, how = f'{meth}:{cls}-int-data:above-by-one-count', 'the cast back to the integer dtype truncates a negative value towards zero'
+        else:
+            key, how = f'le:{meth}:{dim}:{cls}-data', ''
+        ctx.fail(key, f'{meth} ({dim}) on {dt.name} data returns a {base.dtype.name} baseline above the data at {len(excess)} points '
+                      f'(e.g. baseline {by[where]} > data {yy[where]} at flat index {where}; kwargs {kw}) {how}', case)
+        return len(ctx.violations) + len(ctx.known_hit) - before
+    if meth == 'tophat':
+        again = np.asarray(quiet(f.tophat, base, **kw)[0])
+        if exact_values(again) != by:
+            ctx.fail(f'idem:tophat:{dim}:{cls}-data', f'tophat ({dim}, {dt.name} data) applied to its own output changes it', case)
+    if meth != 'imor':
+        if dt.kind in 'iu':
+            ii = np.iinfo(dt)
+            if not all(int(ii.min) <= q + c <= int(ii.max) for q in yy):
+                return len(ctx.violations) + len(ctx.known_hit) - before
+            ysh = np.array([q + c for q in yy], dtype=dt).reshape(y.shape)
+            expect = [p + c for p in by]
+        else:
+            ysh = (y + dt.type(c)).astype(dt)
+            expect = exact_values((base.astype(dt) + dt.type(c)).astype(dt))
+        shifted = exact_values(quiet(getattr(f, meth), ysh, **kw)[0])
+        diff = max(abs(p - q) for p, q in zip(shifted, expect))
+        scale = float(max(abs(float(q)) for q in yy)) + abs(float(c)) + 1.0
+        if meth == 'tophat':
+            tol = 0            # pure min / max: exact in every dtype
+        elif dt.kind in 'iu':
+            # the cast truncates towards zero (one count) and a rounding of the float baseline can move one more count
+            tol = 2 + 256 * float(np.finfo(float).eps) * scale
+        else:
+            tol = 64 * float(np.finfo(dt).eps) * scale
+        if diff > tol:
+            key, how = f'shift:{meth}:{dim}:{cls}-data', ''
+            if dt.kind in 'iu':
+                # diagnosis only (names the key): is the float baseline of y or of y + c outside the range of the dtype?
+                ii = np.iinfo(dt)
+                fb = [np.asarray(quiet(getattr(f, meth), a.astype(float), **kw)[0]) for a in (y, ysh)]
+                if any(q.min() < float(ii.min) or q.max() > float(ii.max) for q in fb):
+                    key, how = f'{meth}:{cls}-data:out-of-range-cast:shift', (' -- the float baseline leaves the range of the data dtype and is cast '
+                                                                              'back to it (wraps or saturates)')
+            ctx.fail(key, f'{meth} ({dim}) on {dt.name} data: m(y + c) != m(y) + c for c={c!r} '
+                     f'(max difference {float(diff):.6g}, allowed {float(tol):.3g}; kwargs {kw}){how}', case)
+    return len(ctx.violations) + len(ctx.known_hit) - before
+
+
+# smallest inputs found for the dtype classes that fail on /repo 2151459; replayed on every run
+DTYPE_WITNESSES = [
+    ('snip:unsigned-data:wraps-above',
+     {'method': 'snip', 'dtype': 'uint8', 'y': [0, 0, 0, 1, 0], 'kwargs': {'max_half_window': 2}, 'shift': 1, 'data': 'witness'}),
+    ('snip:signed-data:wraps-above',
+     {'method': 'snip', 'dtype': 'int8', 'y': [-128, -128, -128, -127, -128], 'kwargs': {'max_half_window': 2}, 'shift': 1, 'data': 'witness'}),
+    ('snip:signed-data:out-of-range-cast:shift',
+     {'method': 'snip', 'dtype': 'int32', 'y': [-2 ** 31, -2 ** 31, -2 ** 31, -2 ** 31 + 9, -2 ** 31],
+      'kwargs': {'max_half_window': 2, 'filter_order': 2, 'decreasing': False}, 'shift': 60, 'data': 'witness'}),
+    ('rubberband:signed-int-data:above-by-one-count',
+     {'method': 'rubberband', 'dtype': 'int64', 'y': [2, 0, -1, -2], 'kwargs': {}, 'shift': 1, 'data': 'witness'}),
+]
+
+
+def oracle_dtypes(ctx, budget):
+    rng = np.random.default_rng(ctx.seed + 1405)
+    exc = 0
+    ctx.known_replayed = set(getattr(ctx, 'known_replayed', None) or ())
+    for key, wcase in DTYPE_WITNESSES:
+        ctx.known_replayed.add(key)
+        try:
+            oracle_dtype_one(ctx, dict(wcase))
+        except Exception:
+            exc += 1
+        ctx.case(('oracle-dtype-witness', key), nontrivial=True, kind=f'oracle:dtype:witness:{key}')
+    reps = 2 * budget
+    for rep in range(reps):
+        for di, dtn in enumerate(DTYPES):
+            for mi, (meth, dim) in enumerate([('tophat', 1), ('mor', 1), ('imor', 1), ('snip', 1), ('rubberband', 1),
+                                               ('tophat', 2), ('mor', 2), ('imor', 2)]):
+                kind = DT_KINDS[(rep * 3 + di + mi) % len(DT_KINDS)]
+                if dim == 1:
+                    n = int(rng.choice([8, 20, 60]))
+                    vals, c = gen_dtype_data(rng, n, dtn, kind)
+                    yl = vals
+                    h = int(rng.integers(1, 6))
+                else:
+                    nr, nc = int(rng.integers(2, 8)), int(rng.integers(2, 8))
+                    vals, c = gen_dtype_data(rng, nr * nc, dtn, kind)
+                    yl = [vals[r * nc:(r + 1) * nc] for r in range(nr)]
+                    n = nr * nc
+                    h = [int(rng.integers(1, 4)), int(rng.integers(1, 4))]
+                if meth == 'snip':
+                    kw = {'max_half_window': int(rng.integers(1, max(2, n // 2))), 'filter_order': int(rng.choice([2, 4, 6, 8])),
+                          'decreasing': bool(rng.integers(0, 2))}
+                elif meth == 'rubberband':
+                    kw = {}
+                elif meth == 'imor':
+                    kw = {'half_window': h, 'max_iter': int(rng.choice([0, 3, 20]))}
+                else:
+                    kw = {'half_window': h}
+                case = {'method': meth, 'dtype': dtn, 'y': yl, 'kwargs': kw, 'shift': c, 'data': kind}
+                label = f'oracle:dtype:{meth}:{dim}d:{dtype_class(dtn)}'
+                nontriv = len(set(vals)) > 1
+                try:
+                    oracle_dtype_one(ctx, case)
+                except Exception as e:
+                    exc += 1
+                    nontriv = False
+                    label += ':exception'
+                    ctx.extra.setdefault('oracle_exceptions', {}).setdefault(type(e).__name__, 0)
+                    ctx.extra['oracle_exceptions'][type(e).__name__] += 1
+                ctx.case(('oracle-dtype', rep, dtn, meth, dim, repr(vals)[:1500]), nontrivial=nontriv, kind=label)
+    return exc
+
+
 def run(ctx):
     ctx.rule = ('data kinds random/integer/ties/plateau/monotone increasing/decreasing/negative/peaks/constant/offset_big (order-one features '
                 'on +-1e5..1e6)/tiny (1e-3 features, shifts up to +-1e6); rubberband additionally scale-ratio kinds (N 300..1000): smooth noise-free '
@@ -717,6 +906,10 @@ def run(ctx):
                 '(N 1..40, exit and no-exit runs), snip (N 3..40, orders 2/4/6/8, both directions, asymmetric and clipped '
                 'windows, 5 paddings), 2-D mor/imor pass; rubberband selection with captured qhull vertices, 1..N//3 segments; '
                 'oracle: N 1..151 (1-D), up to 11x11 (2-D), half windows 1..2N+1, random shifts; '
+                'data dtypes: uint8/int8/uint16/int16/uint32/int32/uint64/int64 (values within +-2**53) and float32, kinds mid / runs of the '
+                'lowest value at the edges / peaks / within 100 of the dtype minimum / maximum, N 8..60 (1-D: tophat, mor, imor, snip, rubberband) '
+                'and up to 7x7 (2-D: tophat, mor, imor), judged on the returned arrays converted exactly (below: exact; idempotence: exact; shift: exact '
+                'for tophat, 2 counts for averaging methods on integers, 64 eps32 on float32), plus four fixed witnesses; '
                 'non-trivial = at least two points and non-constant data, returning call')
     ctx.trusted += [
         'scipy.ndimage.grey_erosion/grey_dilation/grey_opening (C code): modelled by C14/Model.v (reflect index map + window min/max), '
@@ -741,6 +934,7 @@ def run(ctx):
                 ctx.broke(f'correspondence:{part.__name__}:raised', traceback.format_exc()[-1200:])
     budget = 1 if (ok and good and not ctx.broken and ctx.tier == 'quick') else 5
     exc = oracle(ctx, budget)
+    exc += oracle_dtypes(ctx, budget)
     ctx.note(f'oracle budget x{budget}, {exc} oracle calls raised (skipped: exceptions are a permitted outcome); '
              'NOT covered: snip with smooth_half_window > 0 (not claimed: the smoothed previous baseline can exceed the data), '
              'rubberband with smoothing / lam / several segments (only the vertex selection is tied for segments > 1), '
@@ -762,7 +956,7 @@ def replay(rep):
             print('STILL FAILS:', key, what)
     r = R()
     try:
-        oracle_one(r, case)
+        (oracle_dtype_one if 'dtype' in case else oracle_one)(r, case)
     except Exception as e:
         print('raised', type(e).__name__, e)
         return 0
